@@ -176,7 +176,7 @@ def gen_dyna(rng, tier):
 
 
 def gen(rng, tier):
-    n = {"quick": 500, "thorough": 4000, "search": 1500}[tier]
+    n = {"quick": 500, "thorough": 3000, "search": 1500}[tier]
     out = []
     for _ in range(n):
         u = rng.random()
